@@ -1190,7 +1190,8 @@ class Definition(Macro):
     definition = None # type: Optional[str]
 
     def invoke(self, tex):
-        if not self.args: return self.definition
+        # No parameter text: only ## has to be replaced by #
+        if not self.args: return expandDef(self.definition, [None])
 
         name = macroName(self)
         argIter = iter(self.args)
